@@ -40,6 +40,19 @@ func (r *Rng) Chance(p, q int) bool { return r.Intn(q) < p }
 func (r *Rng) Pick(xs []int) int    { return xs[r.Intn(len(xs))] }
 func (r *Rng) Fork() *Rng           { return &Rng{s: r.U64()} }
 
+// Perm returns a random permutation of 0..n-1.
+func (r *Rng) Perm(n int) []int {
+	p := make([]int, n)
+	for i := range p {
+		p[i] = i
+	}
+	for i := n - 1; i > 0; i-- {
+		j := r.Intn(i + 1)
+		p[i], p[j] = p[j], p[i]
+	}
+	return p
+}
+
 // ---------------------------------------------------------------------------
 // Result accumulator (written to -out as JSON, consumed by ./check)
 // ---------------------------------------------------------------------------
